@@ -51,7 +51,7 @@ def programs(rng, tier):
     for n in KEYED:
         body = ["%s(%s)\n" % (n, a) for a in must]
         for i in range(0, len(body), 4):
-            out.append({"src": IMPORTS + "".join(body[i:i + 4]), "include": None, "config": None})
+            out.append({"src": IMPORTS + "".join(body[i:i + 4]), "include": None, "config": None, "keep": True})
     for n in names:
         body = []
         for a in args:
